@@ -173,6 +173,17 @@ func genCase(r *hx.Rand, tier string) *caseT {
 			// refusals, also spelled with an upper-case weight parameter or a mixed-case coding
 			"gzip;Q=0", "br;Q=0, gzip;q=0.5", "br;Q=0, gzip;Q=0", "gzip; Q=0.000, br", "GZip;Q=0", "BR;q=0, GZIP;Q=0.5", "gzip;q=0, br;q=0"}))
 	}
+	if r.Chance(1, 15) {
+		// the client refuses the unencoded response too (alone, or next to codings that are refused / unknown / disabled):
+		// the middleware has nothing to offer and must stay out of the way — the answer is the handler's
+		k.AE = sp(hx.Pick(r, []string{"identity;q=0", "*;q=0", "zstd, *;q=0", "identity;q=0, *;q=0", "gzip;q=0, identity;q=0",
+			"br;q=0, gzip;q=0, *;q=0", "deflate, identity;q=0", "identity;Q=0.000", "compress;q=0.5, identity;q=0", "*;q=0.0, identity;q=0.5",
+			"gzip, identity;q=0", "br, identity;q=0", "gzip, br, *;q=0"}))
+		if r.Chance(1, 2) {
+			k.Opt.NoGzip, k.Opt.NoBr = true, r.Chance(1, 2)
+			k.Opt.Seq = nil
+		}
+	}
 	if !simple && r.Chance(1, 9) {
 		k.Pre = [][2]string{hx.Pick(r, [][2]string{{"Content-Encoding", "x-pre"}, {"X-Outer", "1"}, {"Vary", "Origin"}, {"Content-Type", "text/x-outer"}, {"Content-Encoding", ""}, {"Cache-Control", "private"}, {"Etag", "\"pre\""}, {"X-Content-Type-Options", "nosniff"}, {"X-Content-Type-Options", "nosniff"}, {"Vary", "Accept-Encoding"}, {"Content-Encoding", "identity"}, {"Vary", "*"}})}
 		if r.Chance(1, 3) {
@@ -478,6 +489,15 @@ func genCase(r *hx.Rand, tier string) *caseT {
 			first = false
 		}
 	}
+	if !simple && r.Chance(1, 60) {
+		// one Write far above 64 KiB AFTER the decision was taken (a first write that reaches the threshold, then the big one)
+		k.Prog = []opT{{K: "H", Key: "Content-Type", Vals: []string{"text/plain"}}, {K: "B", Data: bytes.Repeat([]byte("d"), max(k.Opt.MinSize, 600))},
+			{K: "B", Data: bytes.Repeat([]byte("L"), hx.Pick(r, []int{64*1024 + 1, 70000, 3*64*1024 + 16, 204816}))}}
+		if r.Chance(1, 2) {
+			k.Prog = append(k.Prog, opT{K: "B", Data: []byte("tail")})
+		}
+		k.Wrap = ""
+	}
 	return k
 }
 
@@ -577,6 +597,10 @@ func fixedCases() []*caseT {
 	gz := sp("gzip")
 	ct := opT{K: "H", Key: "Content-Type", Vals: []string{"text/plain"}}
 	return []*caseT{
+		// a single Write above 64 KiB after the decision; the client refuses the unencoded response as well
+		{Path: "/p", AE: gz, Prog: []opT{ct, {K: "B", Data: bytes.Repeat([]byte("d"), 600)}, {K: "B", Data: bytes.Repeat([]byte("L"), 204816)}, {K: "B", Data: []byte("tail")}}},
+		{Path: "/p", AE: sp("identity;q=0"), Prog: []opT{ct, {K: "B", Data: []byte("hello")}}},
+		{Path: "/p", AE: sp("gzip, identity;q=0"), Opt: optT{NoGzip: true}, Prog: []opT{ct, {K: "B", Data: []byte("hello")}}},
 		// K15a: a status-only response must keep its status
 		{Path: "/p", AE: gz, Prog: []opT{{K: "St", Code: 201}}},
 		{Path: "/p", AE: gz, Prog: []opT{{K: "Rd", Code: 302, S: "/login"}}},
